@@ -10,7 +10,7 @@
 From Coq Require Import List NArith.
 From Coq Require Import Permutation.
 From Jamm Require Import Bytes Codec Tree Spec Cursor SearchFacts CursorFacts SeekFacts CodecFacts.
-From Jamm Require Engine EngineAbs SpecPath EngineFacts EngineMergeFacts EngineModifyFacts EnginePathFacts EngineSpillFacts SpecPathFacts.
+From Jamm Require Engine EngineAbs SpecPath EngineFacts EngineMergeFacts EngineModifyFacts EnginePathFacts EngineSpillFacts SpecPathFacts EngineRebalanceFacts EngineBridgeFacts.
 Import ListNotations.
 
 Theorem C01_partial_get : forall t k, wf_tree t = true ->
@@ -157,3 +157,34 @@ Theorem C01_partial_spill_root : forall (fuel : nat) (d : Engine.disk) (keep liv
        EngineAbs.page_ents F (EngineSpillFacts.apply_wr w' P d) p = EngineMergeFacts.view_leaves fuel d n).
 Proof. exact EngineSpillFacts.spill_root_spec. Qed.
 Print Assumptions C01_partial_spill_root.
+
+(* ---- rebalance: on an overlay satisfying the strict invariant (every opened bucket: EngineRebalanceFacts.Deep), the
+   whole rebalance pass (merges, removals of emptied nodes, root collapse, in every opened bucket) leaves each bucket's
+   view list exactly as it was, keeps it well-formed, and touches nothing of the transaction state that decides
+   allocation (free list, high-water mark, written pages) ---- *)
+Theorem C01_partial_rebalance_keeps_view : forall (f fv : nat) (d : Engine.disk) (s : Engine.txs) (b : Engine.bucket)
+    (l : list Engine.leafent) (vs : list (Bytes.bytes * EngineRebalanceFacts.bview)) (b' : Engine.bucket) (s' : Engine.txs),
+  EngineRebalanceFacts.Deep fv d s b (EngineRebalanceFacts.BV l vs) ->
+  Engine.rebalance f d b s = Engine.Ok (b', s') ->
+  EngineModifyFacts.bucket_view d b' l /\ EngineModifyFacts.bucket_wf d b' /\
+  Engine.b_next b' = Engine.b_next b /\ map fst (Engine.b_subs b') = map fst vs /\
+  Engine.free s' = Engine.free s /\ Engine.np s' = Engine.np s /\ Engine.wr s' = Engine.wr s /\ Engine.txid s' = Engine.txid s.
+Proof. exact EngineRebalanceFacts.rebalance_bucket_view. Qed.
+Print Assumptions C01_partial_rebalance_keeps_view.
+
+(* ---- spill of one bucket's tree, in the vocabulary of the overlay views: the page returned as the new root holds,
+   on the final disk of the transaction, exactly the view list ---- *)
+Theorem C01_partial_spill_bucket_root : forall (d : Engine.disk) (keep live : list N) (h : nat) (b : Engine.bucket)
+    (n : Engine.node) (l : list Engine.leafent) (f : nat) (s : Engine.txs) (p : N) (s' s'' : Engine.txs) (a2 d2 : list N),
+  Engine.b_rootn b = Some n -> EngineModifyFacts.bucket_wf d b -> EngineModifyFacts.BucketView d h b l ->
+  EngineBridgeFacts.root_ready d keep n -> EngineSpillFacts.fresh_inv live s ->
+  (forall x : N, In x keep -> In x live) ->
+  (forall x : N, In x keep -> EngineSpillFacts.wr_get (Engine.wr s) x = None) ->
+  Engine.spill_root f n s = Engine.Ok (p, s') ->
+  exists (alloc dead : list N) (lv : nat),
+    EngineSpillFacts.frame live s s' alloc dead /\ In p alloc /\ ~ In p live /\ (lv <= f)%nat /\
+    (EngineSpillFacts.frame (alloc ++ live) s' s'' a2 d2 ->
+     forall (P : N) (F : nat), (lv + EngineSpillFacts.ndepth n + h <= F)%nat ->
+     EngineAbs.page_ents F (EngineSpillFacts.apply_wr (Engine.wr s'') P d) p = l).
+Proof. exact EngineBridgeFacts.spill_bucket_root_view. Qed.
+Print Assumptions C01_partial_spill_bucket_root.
